@@ -1198,6 +1198,11 @@ impl<'a> Exec<'a> {
             }
             let slack = tr.max_alloc_per_call.max(1);
             for (sz, n) in &all {
+                // exact classes only: for the shared large list an allocator may legitimately
+                // split or coalesce slots; there the tiling, membership and extend-only rules apply
+                if *sz >= 1024 {
+                    continue;
+                }
                 let p = tr.peak_live.get(sz).copied().unwrap_or(0);
                 if *n > p + slack {
                     fail!(
